@@ -261,13 +261,36 @@ def pattern_scenario(seed):
     n = rng.randint(3, 7)
     ids = rng.sample(range(1, 2 ** 31 - 1), n)
     kind = rng.choice(("lost_with_cancelled", "lost_with_cancelled", "close_cancels_sibling", "close_cancels_sibling",
-                       "lost_then_close", "disconnect_window", "disconnect_window"))
+                       "lost_then_close", "disconnect_window", "disconnect_window", "flush_on_connect",
+                       "flush_on_connect"))
     t0 = [round(rng.choice((0.0, 0.0, 0.01, 0.03)) * k, 4) for k in range(n)]
     actions = [[t0[k], "req", i, True] for k, i in enumerate(ids)]
     on_fire, behaviour, cuts, connect = {}, [], {}, ["accept"] * 12
     end = "heal"
     horizon = 3.0
-    if kind == "disconnect_window":
+    force_latency = None
+    if kind == "flush_on_connect":
+        # everything is queued before the connection exists; when it comes up the queue is flushed, requests that
+        # expect no reply complete as they are written, and their callbacks cancel / issue / disconnect in the
+        # middle of the flush
+        force_latency = rng.choice((0.01, 0.05))
+        actions = [[0.0, "req", i, not (k < n - 1 and rng.random() < 0.5)] for k, i in enumerate(ids)]
+        if all(a[3] for a in actions):
+            actions[0][3] = False
+        for i in ids:
+            for nth in range(3):
+                behaviour.append([i, nth, ["now"] if rng.random() < 0.8 else ["delay", 0.02]])
+        for k, a in enumerate(actions):
+            if not a[3]:
+                later = [x for x in ids[k + 1:]]
+                r = rng.random()
+                if later and r < 0.6:
+                    on_fire[str(a[2])] = ["cancel_other", rng.choice(later)]
+                elif r < 0.75:
+                    on_fire[str(a[2])] = ["disconnect", None]
+        if rng.random() < 0.3:
+            connect = ["refuse"] + connect
+    elif kind == "disconnect_window":
         # disconnect() on a live connection with requests outstanding, and in the same reactor turn - before the
         # transport has reported the loss - another request, a cancel, or close()
         td = round(rng.uniform(0.2, 0.6), 4)
@@ -326,7 +349,8 @@ def pattern_scenario(seed):
     actions.sort(key=lambda a: a[0])
     return dict(seed=seed, ids=ids, on_fire=on_fire, extra_ids=[], unwritable=[], actions=actions, behaviour=behaviour,
                 injections=[], connect=connect, cuts=cuts, end=end, horizon=horizon, pattern=kind,
-                latency=rng.choice((0.0, 0.002, 0.02)), chunk=rng.choice(("whole", "bytes", "random")),
+                latency=rng.choice((0.0, 0.002, 0.02)) if force_latency is None else force_latency,
+                chunk=rng.choice(("whole", "bytes", "random")),
                 retry_base=rng.choice((0.05, 0.2)), retry_step=rng.choice((0.0, 0.07)))
 
 
@@ -488,6 +512,7 @@ def run_scenario(sc, ghost=False, debug=False):
     tr.server = server
     tr.retry = retry
     tr.unhandled = traps.unhandled
+    tr.second_firings = traps.second_firings
     tr.logged = traps.errors_logged
     tr.clock_errors = clock.errors
     return tr
